@@ -209,7 +209,7 @@ def full_sign_ok(sess, suite, kps, pkp, signers, msg=None, what="sign", replay_f
     for i in signers:
         r = sess.call("verify_share %s id=%s Y=%s z=%s msg=%s comms=%s vk=%s" % (suite, i, pk["vshares"].get(i, kp_fields(kps[i])["Y"]), shares[i], msg, comms, pk["vk"]), CLASS, "verify_share")
         okall &= sess.oracle(r.ok, "%s: honest share rejected by verify_signature_share (%s)" % (what, r.raw), rp())
-    for mode in ("first",) if sess.rng.random() < 0.7 else ("disabled", "all", "first"):
+    for mode in ("first", "disabled", "all"):
         r = aggregate(sess, suite, msg, comms, shares, pkp, mode)
         okall &= sess.oracle(r.ok, "%s: aggregate failed for honest shares (%s)" % (what, r.raw), rp())
         if r.ok:
